@@ -212,17 +212,28 @@ def run(tier: str) -> int:
     try:
         rng = random.Random(rep.seed)
         cells = helper_cells(5 if tier == "quick" else 8, rng) + crc_cells()
+        # compile-time twins: the same helper called with literals is evaluated by the Python-level implementation
+        # during compilation and must give the same defining function (sampled input patterns, no solver needed)
+        from ..cells import constify
+        twins = []
+        for c in helper_cells(4, random.Random(1)):
+            twins += constify(c, 8 if tier == "quick" else 32, rng)[: 3 if tier == "quick" else 12]
+        cells = cells + twins
         for k in range(0, len(cells), 30):
             for res in run_cells(rep, wd, cells[k:k + 30], "concurrent", timeout_ms=60000):
                 counts[res.status] = counts.get(res.status, 0) + 1
                 key = res.cell.key
-                fam = key.split("|")[0]
+                fam = key.split("|")[0] if not key.startswith("const|") else "const|" + key.split("|")[1]
                 if res.status == "ok":
                     rep.stats.nontrivial.add(key)
                     if len(rep.stats.samples) < 5 and fam in ("count_set_bits", "min_element_idx", "batched_fold", "crc"):
                         rep.stats.sample({"cell": key, "body": res.cell.body, "verdict": "unsat: output == definition for all inputs"})
                 elif res.status == "mismatch":
                     rep.violation(f"{fam}|{key}", f"helper differs from its definition: inputs {res.detail['inputs_math']} -> got {res.detail['got_bits']}, want {res.detail['want_bits']}", res.detail)
+                elif res.status == "rejected" and key.startswith("const|"):
+                    # the helper does not accept plain (unqualified) constants: no value is produced, nothing to compare
+                    counts["const-rejected"] = counts.get("const-rejected", 0) + 1
+                    counts["rejected"] -= 1
                 elif res.status == "rejected":
                     rep.violation(f"{fam}|rejected|{key}", f"helper call rejected: {res.detail}", {"detail": res.detail, "body": res.cell.body})
                 elif res.status == "illegal":
@@ -233,7 +244,8 @@ def run(tier: str) -> int:
                     rep.inconclusive_query(f"{key}: {res.detail}")
         rep.stats.units |= {"cohdl.std._core_utility (count_*_bits, count_leading/trailing_*, one_hot, is_one_hot, reverse_bits, rol, ror, *shift_fill, repeat, stretch, *pad, concat, apply_mask, Mask, batched, select_batch, parity, minimum/maximum, min/max_element, min/max_index, count, clamp, count_elements_while/until, choose_first, select, cond, binary_fold, batched_fold)",
                             "cohdl.std._crc.BitwiseCrc._calc_steps"}
-        rep.assumptions += ["widths 1..%d, list lengths <= 7, batch sizes 2/3/6" % (5 if tier == "quick" else 8), "one_hot: position < width; clamp: low <= high",
+        rep.assumptions += ["compile-time twins: %d helper calls with literal arguments (widths <= 4, sampled patterns incl. corners) must fold to the constant the definition gives" % len(twins),
+                            "widths 1..%d, list lengths <= 7, batch sizes 2/3/6" % (5 if tier == "quick" else 8), "one_hot: position < width; clamp: low <= high",
                             "CRC: one step of 1..3 data bits from an arbitrary register value (inductive over message length) for 4 polynomials of width <= 5"]
         return rep.finish({
             "programs": rep.stats.programs, "cells": len(cells), "cell_results": counts,
